@@ -18,13 +18,13 @@ from re import (
     DOTALL,
     findall,
     finditer,
+    fullmatch,
     Match,
     match,
     MULTILINE,
     Pattern,
     search,
 )
-from string import whitespace
 from tomllib import loads as loads_toml
 from typing import Any, cast, ClassVar, BinaryIO
 from warnings import warn
@@ -960,9 +960,34 @@ class HandHistory(Iterable[State]):
         :return: a ``str`` object.
         """
 
+        def clean_string(value: str, multiline_status: bool) -> str:
+            controls = set(map(chr, range(32))) - {'\t'} | {'\x7f'}
+
+            if '\'' not in value and not controls & set(value):
+                return f'\'{value}\''
+            elif (
+                    multiline_status
+                    and '\'\'\'' not in value
+                    and not value.startswith('\n')
+                    and not (controls - {'\n'}) & set(value)
+            ):
+                return f'\'\'\'{value}\'\'\''
+
+            escaped_value = ''
+
+            for c in value:
+                if c == '\\' or c == '"':
+                    escaped_value += f'\\{c}'
+                elif c in controls:
+                    escaped_value += f'\\u{ord(c):04x}'
+                else:
+                    escaped_value += c
+
+            return f'"{escaped_value}"'
+
         def clean_key(key: str) -> str:
-            if set(key) & set(whitespace):
-                key = f'\'{key}\''
+            if not fullmatch('[A-Za-z0-9_-]+', key):
+                key = clean_string(key, False)
 
             return key
 
@@ -983,12 +1008,7 @@ class HandHistory(Iterable[State]):
                 pairs = map(' = '.join, zip(keys, values))
                 cleaned_value = '{' + ', '.join(pairs) + '}'
             elif isinstance(value, str):
-                if '\'' in value:
-                    delimiter = '\'\'\''
-                else:
-                    delimiter = '\''
-
-                cleaned_value = delimiter + value + delimiter
+                cleaned_value = clean_string(value, True)
             else:
                 cleaned_value = repr(value)
 
